@@ -10,7 +10,7 @@
    Oracle-only: the labelled transition relation as such (checked per op on the implementation). *)
 From Coq Require Import List ZArith NArith Bool.
 From PM Require Import Base.Bytes Store.KV Store.MergeProofs Num.IntModel Num.DecModel Num.DecProofs
-  App.Model App.BankProofs App.TxProofs App.KeyProofs App.PosProofs App.IndexProofs App.IndexComplete App.QueueProofs App.Examples App.Invariants.
+  App.Model App.BankProofs App.TxProofs App.KeyProofs App.PosProofs App.IndexProofs App.IndexComplete App.QueueProofs App.ExportProofs App.Examples App.Invariants.
 Import ListNotations.
 Local Open Scope Z_scope.
 
@@ -73,11 +73,33 @@ Theorem C06_genesis_queue_sound s0 gvals dao s ups : queue_sound s0 -> NoDup (ma
 Proof. exact (init_chain_qs s0 gvals dao s ups). Qed.
 Theorem C06_genesis_queue_ok s0 gvals dao s ups : queue_ok s0 -> init_chain s0 gvals dao = Some (s, ups) -> queue_ok s.
 Proof. exact (init_chain_q s0 gvals dao s ups). Qed.
+(* a restart from the exported state (ExportGenesis -> InitGenesis rebuilds index and queue from the records): in
+   every state satisfying the history-level invariants the rebuilt index IS the index, the rebuilt queue has the same
+   members and the live records are the same; and whatever list of distinct live records InitGenesis is given, the
+   state it builds satisfies the invariants (App/ExportProofs.v; the engine's export/import stream checks the same
+   projections on the real code) *)
+Theorem C06_restart_from_export_is_identity s : idx_sound s -> idx_complete s -> queue_ok s -> queue_sound s ->
+  let '(V', P', Q') := import (export (vals s)) in
+  V' = export (vals s) /\ same_live (vals s) V' /\ P' = powidx s /\ (forall k a, queued Q' k a <-> queued (unstq s) k a).
+Proof. exact (export_import_roundtrip s). Qed.
+Theorem C06_import_establishes_invariants l : NoDup (map fst l) -> (forall a v, In (a, v) l -> wf_bytes a) ->
+  let '(V', P', Q') := import l in
+  isound V' P' /\ icomp V' P' /\ qc V' Q' /\ qs V' Q' /\
+  forall a, aget V' a = match find (fun av => beqb (fst av) a) l with Some av => Some (snd av) | None => None end.
+Proof. exact (import_establishes_the_invariants l). Qed.
+Theorem C06_import_is_the_three_store_writes s av :
+  let s' := import_validator s av in (vals s', powidx s', unstq s') = imp_one (vals s, powidx s, unstq s) av.
+Proof. exact (import_validator_is_imp_one s av). Qed.
+Example C06_ex_restart : match ex_final with
+  | Some s => import (export (vals s)) = (export (vals s), powidx s, unstq s) | None => False end.
+Proof. vm_compute. reflexivity. Qed.
 Example C06_ex_premises : exists s ups, ex_genesis = Some (s, ups) /\ bank_ok s /\ idx_sound s /\ PoolProofs.pool_ok ex_ma s /\ queue_ok s.
 Proof. exact ex_genesis_all_ok. Qed.
 Example C06_ex : exists s, ex_final = Some s /\ aget (accts s) A2 = Some 3000000 /\ aget (vals s) A2 = None.
 Proof. destruct ex_final_some as (s & E & _ & B & V & _). eauto. Qed.
 Print Assumptions C06_jail_removes_index_entry.
+Print Assumptions C06_restart_from_export_is_identity.
+Print Assumptions C06_import_establishes_invariants.
 Print Assumptions C06_maturity_never_early.
 Print Assumptions C06_index_sound_all_histories.
 Print Assumptions C06_unstaking_always_queued_all_histories.
